@@ -18,6 +18,44 @@ Definition src_fn_pack_size (n : N) : N :=
               then 7
               else 8)))))).
 
+Definition src_fn_unpack_uint (slice : list N) (nbytes : N) : res N :=
+  if ((1 <=? nbytes) && (nbytes <=? 8))
+  then (do t <- (if (nbytes <=? (len slice))
+      then (Ok nbytes)
+      else Panic);
+    Ok (fold_left (fun n src_e => let '(i, b) := src_e in (N.lor n (N.shiftl b (8 * i)))) (src_enumerate (firstn (N.to_nat t) slice)) 0))
+  else Panic.
+
+Definition src_fn_pack_uint_in_bytes (n nbytes : N) : res (list N) :=
+  if ((1 <=? nbytes) && (nbytes <=? 8))
+  then (let buf := (repeatN 0 8) in
+    let '(buf_3, n_3) := (fold_left (fun src_st i => let '(buf_1, n_1) := src_st in let buf_2 := (set_nth buf_1 (N.to_nat i) (n_1 mod 256)) in
+      let n_2 := (N.shiftr n_1 8) in
+      (buf_2, n_2)) (src_range 0 nbytes) (buf, n)) in
+    Ok (firstn (N.to_nat nbytes) buf_3))
+  else Panic.
+
+Definition src_fn_Bound_exceeded_by (self_ : src_Bound) (inp : list N) : bool :=
+  match self_ with
+  | src_Bound_Included v => (key_ltb v inp)
+  | src_Bound_Excluded v_1 => (key_leb v_1 inp)
+  | src_Bound_Unbounded => false
+  end.
+
+Definition src_fn_Bound_is_empty (self_ : src_Bound) : bool :=
+  match self_ with
+  | src_Bound_Included v => (len v =? 0)
+  | src_Bound_Excluded v_1 => (len v_1 =? 0)
+  | src_Bound_Unbounded => true
+  end.
+
+Definition src_fn_Bound_is_inclusive (self_ : src_Bound) : bool :=
+  match self_ with
+  | src_Bound_Included _ => true
+  | src_Bound_Excluded _ => false
+  | src_Bound_Unbounded => true
+  end.
+
 Definition src_fn_Output_prefix (self0 o : N) : N :=
   (N.min self0 o).
 
